@@ -284,6 +284,8 @@ class RadiRouter:
         self.radidict.remove(route_pattern)
         if route:
             del self.routes[route.pattern]
+            # other names registered for the same route go with it
+            self._remove_named_routers({route.pattern})
         else:
             if route_pattern.endswith('*'):
                 route_pattern = route_pattern[:-1]
